@@ -8,20 +8,33 @@
 EXTENDS Wire, Json
 
 CONSTANTS Depth, Big
-VARIABLE h
-gvars == <<wvars, h>>
+VARIABLES h, role      \* role: "" = nexus accepts the connection, "client" = nexus connects
+gvars == <<wvars, h, role>>
 
 R(S) == {RandomElement(S)}
 W(q) == {q[RandomElement(1..Len(q))]}
 N    == Len(h) + 1
 
-In0 == [op |-> "", magic |-> TRUE, lenn |-> 0, sern |-> 0, rsv |-> TRUE, type |-> 0, len |-> 0, body |-> "", id |-> 0, n |-> 0, split |-> FALSE]
+In0 == [op |-> "", magic |-> TRUE, lenn |-> 0, sern |-> 0, rsv |-> TRUE, type |-> 0, len |-> 0, body |-> "", id |-> 0, n |-> 0, split |-> FALSE,
+        msgs |-> 0, pings |-> 0, sched |-> ""]
 
 GHandshake ==
   \E magicOK \in W(<<TRUE, TRUE, TRUE, TRUE, TRUE, TRUE, TRUE, FALSE>>), lenNibble \in W(<<0, 0, 1, 3, 15>>),
      serNibble \in W(<<1, 1, 2, 2, 3, 3, 0, 4, 15>>), rsv \in W(<<TRUE, TRUE, TRUE, TRUE, TRUE, TRUE, TRUE, FALSE>>) :
     /\ h' = Append(h, [In0 EXCEPT !.op = "hs", !.magic = magicOK, !.lenn = lenNibble, !.sern = serNibble, !.rsv = rsv])
     /\ Handshake(magicOK, lenNibble, serNibble, rsv)
+    /\ UNCHANGED role
+
+\* the server's four octets (nexus is the connecting side): mostly agreement on the serializer asked
+\* for, with every length nibble; also another serializer, error replies of every code, a wrong magic
+\* octet, hanging up instead of answering
+GServerReply ==
+  \E magicOK \in W(<<TRUE, TRUE, TRUE, TRUE, TRUE, TRUE, TRUE, FALSE>>), hi \in W(<<0, 0, 1, 3, 15, 2, 4, 5>>),
+     how \in W(<<"same", "same", "same", "same", "same", "other", "error", "eof">>), other \in R({1, 2, 3, 4, 15}) :
+    LET lo == IF how = "same" THEN ser ELSE IF how = "other" THEN (IF other = ser THEN (ser % 3) + 1 ELSE other) ELSE 0 IN
+    /\ h' = Append(h, [In0 EXCEPT !.op = "chs", !.magic = magicOK, !.lenn = hi, !.sern = lo, !.body = IF how = "eof" THEN "eof" ELSE ""])
+    /\ ServerReply(magicOK, hi, lo, how = "eof")
+    /\ UNCHANGED role
 
 \* lengths around the router's receive limit, and small ones
 \* (the 24 bit length field cannot carry more than 2^24 - 1; the 16 MiB frames are left to the thorough tier)
@@ -34,26 +47,30 @@ GFrame ==
     IN h' = Append(h, i) /\ (IF body \in {"long", "kind"} /\ type = 0
                               THEN phase = "open" /\ UNCHANGED <<phase, ser, sendLimit, recvLimit, cfgLimit>> /\ wobs' = NoObs
                               ELSE Frame(type, l, body, N))
+       /\ UNCHANGED role
 
 \* sizes around the client's limit
 GSend ==
   \E n \in R({60, sendLimit - 1, sendLimit, sendLimit + 1, 2 * sendLimit}) :
     LET m == IF n < 60 THEN 60 ELSE IF n > 70000 /\ ~Big THEN 70001 ELSE n IN
-    /\ h' = Append(h, [In0 EXCEPT !.op = "send", !.n = m, !.id = N]) /\ Send(m, N)
+    /\ h' = Append(h, [In0 EXCEPT !.op = "send", !.n = m, !.id = N]) /\ Send(m, N) /\ UNCHANGED role
 
-GEof == h' = Append(h, [In0 EXCEPT !.op = "eof"]) /\ Eof
+GEof == h' = Append(h, [In0 EXCEPT !.op = "eof"]) /\ Eof /\ UNCHANGED role
 
 \* after the connection ended nothing more can be said on it
-GNop == h' = Append(h, [In0 EXCEPT !.op = "nop"]) /\ UNCHANGED wvars
+GNop == h' = Append(h, [In0 EXCEPT !.op = "nop"]) /\ UNCHANGED <<wvars, role>>
 
 GenNext ==
   /\ Len(h) < Depth
   /\ \E kind \in W(<<"frame", "frame", "frame", "frame", "send", "send", "send", "eof">>) :
        IF phase = "hs" THEN GHandshake
+       ELSE IF phase = "chs" THEN GServerReply
        ELSE IF phase = "closed" THEN GNop
        ELSE CASE kind = "frame" -> GFrame [] kind = "send" -> GSend [] OTHER -> GEof
 
-GenInit == h = <<>> /\ \E limit \in {0, 512, 600, 4096} : WInitWith(limit)
+GenInit == /\ h = <<>>
+           /\ \E limit \in {0, 512, 600, 4096}, r \in {"", "client"}, s \in {1, 2, 3} :
+                role = r /\ (IF r = "client" THEN WInitClient(limit, s) ELSE WInitWith(limit))
 GenSpec == GenInit /\ [][GenNext]_gvars
-Emitted == Len(h) < Depth \/ PrintT(<<"SCN", ToJson([limit |-> cfgLimit, steps |-> h])>>)
+Emitted == Len(h) < Depth \/ PrintT(<<"SCN", ToJson([limit |-> cfgLimit, role |-> role, ser |-> ser, steps |-> h])>>)
 =============================================================================
